@@ -116,7 +116,8 @@ def select_only(vm, n_builders, k, strategy):
     SCHED[0] = Sched(vm)
     ledger = StubLedger()
     ledger.coin_selection_strategy = strategy
-    utxos = [make_utxo(i, vm.new_int('utxo', 10 ** 6, 10 ** 9), 1) for i in range(k)]
+    shared = k >= 2 and vm.new_bool('outputs_of_one_funding_tx')
+    utxos = [make_utxo(i, vm.new_int('utxo', 10 ** 6, 10 ** 9), 1, 0 if shared else None) for i in range(k)]
     account = StubAccount(ledger, utxos)
     results = []
     for b in range(n_builders):
@@ -164,7 +165,8 @@ def create_concurrent(vm, n_builders, k, strategy, fates=None):
     SCHED[0] = Sched(vm)
     ledger = StubLedger()
     ledger.coin_selection_strategy = strategy
-    utxos = [make_utxo(i, vm.new_int('utxo', 10 ** 5, 10 ** 9), 1) for i in range(k)]
+    shared = k >= 2 and vm.new_bool('outputs_of_one_funding_tx')
+    utxos = [make_utxo(i, vm.new_int('utxo', 10 ** 5, 10 ** 9), 1, 0 if shared else None) for i in range(k)]
     account = StubAccount(ledger, utxos)
     results = []
     for b in range(n_builders):
